@@ -1,4 +1,5 @@
 import Shisui.FindNodes
+import Shisui.FindNodesRel
 import Driver.Util
 /-! C11 driver. Responder (`handleFindNodes`): a decidable relation, because every bucket is shuffled — walking the
     requested distances (repeats and values above 256 dropped) the reply must be a concatenation of duplicate-free
@@ -8,39 +9,7 @@ import Driver.Util
 namespace Drv.C11
 open Drv
 
-structure TN where
-  id : Nat
-  bucket : Nat
-  live : Bool
-  cls : String
-  size : Nat
-deriving Repr
-
-/-- `netutil.CheckRelayIP` by address class -/
-def relayOk (sender addr : String) : Bool :=
-  if addr == "special" || addr == "none" then false
-  else if addr == "loopback" && sender != "loopback" then false
-  else if (addr == "lan") && !(sender == "lan" || sender == "loopback") then false
-  else true
-
-/-- `bucketAtDistance` -/
-def bucketOf (d : Nat) : Nat := if d ≤ 239 then 0 else d - 240
-
-def cands (tab : List TN) (selfN : TN) (asker : String) (d : Nat) : List TN :=
-  (if d = 0 then [selfN] else tab.filter (fun n => n.bucket == bucketOf d && n.live)).filter (fun n => relayOk asker n.cls)
-
-def cleanDists : List Nat → List Nat → List Nat
-  | [], _ => []
-  | d :: ds, seen => if seen.contains d || d > 256 then cleanDists ds seen else d :: cleanDists ds (d :: seen)
-
-def consume : List (List TN) → List Nat → Bool × List (List TN)
-  | [], res => (res.isEmpty, [])
-  | s :: ss, res =>
-    let seg := res.take s.length
-    let segOk := seg.all (fun i => s.any (·.id == i)) && seg.eraseDups.length == seg.length
-    if !segOk then (false, [])
-    else if seg.length < s.length then (res.length == seg.length, (s.filter (fun n => !seg.contains n.id)) :: ss)
-    else consume ss (res.drop s.length)
+open Fnr
 
 /-- maxPacketSize − talkRespOverhead − (msg id + total + container offset) -/
 def budget : Nat := 1280 - 103 - 6
